@@ -342,8 +342,10 @@ Expected(T, ms, q) ==
   \* cursor for this; the observed cursor q.ai is NOT consulted: a cursor left on an older candle
   \* after a maintenance call is a finding.
   IN CASE q.w = "ind.reading" ->
-            IF q.i = 999999 THEN GetRef(cs[n], q.n) ELSE GetRef(cs[PyIdx(n, q.i)], q.n)
-       [] q.w = "ind.read_candle" -> GetRef(cs[PyIdx(n, q.i)], q.n)
+            \* (an index outside the list reads None: utils/indexing.absindex)
+            IF q.i = 999999 THEN (IF n = 0 THEN NoneV ELSE GetRef(cs[n], q.n))
+            ELSE IF ValidIdx(n, q.i) THEN GetRef(cs[PyIdx(n, q.i)], q.n) ELSE NoneV
+       [] q.w = "ind.read_candle" -> IF ValidIdx(n, q.i) THEN GetRef(cs[PyIdx(n, q.i)], q.n) ELSE NoneV
        [] q.w = "ind.prev_reading" -> IF n <= 1 THEN NoneV ELSE GetRef(cs[n - 1], q.n)
        [] q.w = "ind.as_list" -> ListV([i \in 1..n |-> GetRef(cs[i], q.n)])
        [] q.w = "ind.has_reading" ->
